@@ -10,13 +10,17 @@ def run(chk):
     exes = lib.build_impl(); mdl = lib.build_model()
     tier = chk.tier
     pool = uris.parsed_pool(chk, mdl, 700 if tier == "quick" else 12000)
-    args = [uris.Pf(f) for f in pool] + uris.raw_fixed()
+    # IPv6 literals whose spelling is longer / shorter than the 39 characters written for them (no component's own length bounds the
+    # capacity that is needed), and every combination of absent / empty / non-empty components
+    special = uris.valid_texts(mdl, uris.long_ip6_texts() + uris.degenerate_texts())
+    if tier == "quick": special = [t for i, t in enumerate(special) if "[" in t or i % 4 == 0]
+    args = [uris.Pf(f) for f in pool] + [uris.P(t) for t in special] + uris.raw_fixed()
     # sizes from the model; then every capacity from -1 to len+2, charsWritten NULL or not
     sizes = lib.run_lines(mdl, ["tostring req 0 %s" % a for a in args])
     reqs = []
     for a, sz in zip(args, sizes):
         L = int(sz.split()[2])
-        caps = list(range(-1, L + 3)) if L <= 40 or tier != "quick" else list(range(-1, 4)) + list(range(L - 3, L + 3))
+        caps = list(range(-1, L + 3)) if L <= 64 or tier != "quick" else list(range(-1, 4)) + list(range(L - 3, L + 3))
         for c in caps:
             reqs.append("tostring %d %d %s" % (c, (c + L) % 2, a))
         reqs.append("tostring req 0 %s" % a)
